@@ -42,3 +42,21 @@ func VerifConnectedClients() float64 {
 	}
 	return sum
 }
+
+// VerifConnectedClientsByLabel returns the ws_connected_clients gauge per label set ("name=value,..." sorted).
+func VerifConnectedClientsByLabel() map[string]float64 {
+	ch := make(chan prometheus.Metric, 64)
+	go func() { wsConnectedClients.Collect(ch); close(ch) }()
+	out := map[string]float64{}
+	for m := range ch {
+		var d dto.Metric
+		if m.Write(&d) == nil && d.GetGauge() != nil {
+			k := ""
+			for _, l := range d.GetLabel() {
+				k += l.GetName() + "=" + l.GetValue() + ","
+			}
+			out[k] = d.GetGauge().GetValue()
+		}
+	}
+	return out
+}
